@@ -18,3 +18,23 @@ def mk(prop, name, expect, note, edits):
         open(p, 'w').write(s.replace(old, new))
     subprocess.run(['/verif/engine/mkpatch.sh', 'end', prop, name, expect, note], check=True, stdout=subprocess.DEVNULL)
     print('ok', prop, name)
+
+
+def mk2(prop, name, expect, note, base_patch, edits):
+    """like mk, but the edits are applied on top of a base patch (e.g. a benign refactoring or a stored seed)"""
+    if not os.path.isdir(W + '/a'):
+        subprocess.run(['/verif/engine/mkpatch.sh', 'begin'], check=True)
+    subprocess.run(['rsync', '-a', '--delete', '/repo/src/', W + '/a/src/'], check=True)
+    subprocess.run(['rsync', '-a', '--delete', W + '/a/src/', W + '/b/src/'], check=True)
+    r = subprocess.run('grep -v "^# " %s | patch -p1 -s -d %s/b' % (base_patch, W), shell=True)
+    if r.returncode != 0:
+        raise SystemExit('%s: base patch does not apply' % name)
+    subprocess.run('find %s/b -name "*.orig" -delete; find %s/b -name "*.rej" -delete' % (W, W), shell=True)
+    for (f, old, new) in edits:
+        p = os.path.join(W, 'b', f)
+        s = open(p).read()
+        if s.count(old) != 1:
+            raise SystemExit('%s: pattern occurs %d times in %s' % (name, s.count(old), f))
+        open(p, 'w').write(s.replace(old, new))
+    subprocess.run(['/verif/engine/mkpatch.sh', 'end', prop, name, expect, note], check=True, stdout=subprocess.DEVNULL)
+    print('ok', prop, name)
